@@ -76,6 +76,14 @@ def index (l : List Char) (i : Int) : Except PyExc Char :=
     | some c => pure c
     | none => throw .indexError
 
+/-- `l[i]` for a list of strings: negative indices count from the end, out of range raises IndexError -/
+def indexL (l : List (List Char)) (i : Int) : Except PyExc (List Char) :=
+  let j := if i < 0 then i + l.length else i
+  if j < 0 then throw .indexError
+  else match l[j.toNat]? with
+    | some x => pure x
+    | none => throw .indexError
+
 /-- `d[k]` on an insertion-ordered dictionary of strings -/
 def dictGet (d : List (List Char × List Char)) (k : List Char) : Except PyExc (List Char) :=
   match d.find? fun e => e.1 == k with
